@@ -315,3 +315,99 @@ def o_c19(spec, obs):
         if obs.get("constructed") is not want:
             return True, "%s(%s) constructed=%r, expected %r" % (spec["cls"], spec["dtype"], obs.get("constructed"), want)
     return False, "ok"
+
+
+# ------------------------------------------------------------------------------- datagrams (C05/C06/C07)
+import warnings as _warnings  # noqa: E402
+from spec import broadcast as SB  # noqa: E402
+
+
+@kind("datagram")
+def k_datagram(spec):
+    import aioswitcher.bridge as bridge
+
+    data = bytes.fromhex(spec["data"])
+    got = []
+    out = {}
+    with _warnings.catch_warnings(record=True) as ws:
+        _warnings.simplefilter("always")
+        try:
+            bridge._parse_device_from_datagram(got.append, data)
+            out["exception"] = None
+        except Exception as e:  # noqa: BLE001
+            out["exception"] = type(e).__name__
+            out["msg"] = str(e)[:200]
+    out["devices"] = [norm(g) for g in got]
+    out["warnings"] = len(ws)
+    return out
+
+
+def _iso(secs):
+    return "%02d:%02d:%02d" % (secs // 3600, (secs // 60) % 60, secs % 60)
+
+
+def expected_device_concrete(d, family):
+    r = SB.decode(O, d, family)
+    name, fam, cat = SB.MODELS[r["model"]]
+    cls = {"WATER_HEATER": "SwitcherWaterHeater", "POWER_PLUG": "SwitcherPowerPlug", "THERMOSTAT": "SwitcherThermostat",
+           "SHUTTER": "SwitcherShutter"}[cat]
+    e = {"__class__": cls, "device_type": "DeviceType." + name, "device_id": bytes(r["id"]).hex(), "device_key": bytes(r["key"]).hex(),
+         "ip_address": ".".join(str(x) for x in r["ip"]), "mac_address": ":".join("%02X" % b for b in r["mac"]),
+         "name": bytes(r["name_field"]).decode().rstrip("\x00")}
+    if family == "type1":
+        on = r["on"]
+        e["device_state"] = "DeviceState.ON" if on else "DeviceState.OFF"
+        e["power_consumption"] = r["watts"] if on else 0
+        e["electric_current"] = round(r["watts"] / 220.0, 1) if on else 0.0
+        if cat == "WATER_HEATER":
+            e["remaining_time"] = _iso(r["remaining_s"]) if on else "00:00:00"
+            e["auto_shutdown"] = _iso(r["auto_s"])
+    if family == "runner":
+        e["position"] = r["position"]
+        e["direction"] = "ShutterDirection." + SB.DIRECTIONS[r["direction"]]
+    if family == "breeze":
+        e["device_state"] = "DeviceState.ON" if r["on"] else "DeviceState.OFF"
+        e["mode"] = "ThermostatMode." + SB.MODES[r["mode"]]
+        e["fan_level"] = "ThermostatFanLevel." + SB.FANS[r["fan"]]
+        e["swing"] = "ThermostatSwing." + ("ON" if r["swing"] == 1 else "OFF")
+        e["temperature"] = r["temp10"] / 10
+        e["target_temperature"] = r["target"]
+        e["remote_id"] = bytes(r["remote"]).decode()
+    return e
+
+
+@oracle("C05")
+def o_c05(spec, obs):
+    d = bytes.fromhex(spec["data"])
+    family = spec["family"]
+    r = SB.decode(O, d, family)
+    if len(d) != SB.FAMILY_LEN[family] or not SB.wellformed(O, d, family, r):
+        return False, "datagram is not a well-formed broadcast of this family (outside C05)"
+    if obs["exception"]:
+        return True, "well-formed broadcast raised %s" % obs["exception"]
+    if len(obs["devices"]) != 1:
+        return True, "%d devices delivered" % len(obs["devices"])
+    exp = expected_device_concrete(d, family)
+    got = obs["devices"][0]
+    for k, v in exp.items():
+        if got.get(k) != v:
+            return True, "field %s = %r, device encoded %r" % (k, got.get(k), v)
+    return False, "ok"
+
+
+@oracle("C06")
+def o_c06(spec, obs):
+    d = bytes.fromhex(spec["data"])
+    gate = d[:2] == b"\xfe\xf0" and len(d) in (165, 168, 159)
+    if not gate:
+        if obs["exception"] or obs["devices"] or obs["warnings"]:
+            return True, "non-broadcast (%d bytes) was not ignored silently: %r" % (len(d), {k: obs[k] for k in ("exception", "warnings")})
+        return False, "ignored"
+    model = d[74] * 256 + d[75]
+    if model not in SB.MODELS:
+        if obs["exception"] or obs["devices"] or obs["warnings"] != 1:
+            return True, "unknown model %04x: exception=%r devices=%d warnings=%d" % (model, obs["exception"], len(obs["devices"]), obs["warnings"])
+        return False, "unknown model warned"
+    if not obs["exception"] and not obs["devices"] and not obs["warnings"]:
+        return True, "genuine broadcast ignored"
+    return False, "ok"
